@@ -1,2 +1,12 @@
-// Package c19 holds the check for property C19.
+// Package c19 decides C19 (JSON.parse / JSON.stringify conform to ECMA-404 / ECMA-262 and round-trip) by
+// bounded-exhaustive enumeration against the reference model verif/ref/jsonmodel:
+//
+//	parse:     every token sequence of the JSON grammar up to N tokens over a token alphabet of well- and
+//	           ill-formed scalars and keys, every white-space placement of small texts, every single-code-unit
+//	           edit of every accepted small text, every string up to a length over a symbol alphabet, all
+//	           nestings up to depth 8; x revivers (absent, non-callable, logging, deleting, replacing, mutating)
+//	stringify: every value tree up to a depth over a leaf alphabet containing every kind of value the
+//	           property names x replacers x indents; Object.MarshalJSON; parse(stringify(v)); stringify(parse(t)).
+//
+// Every case is executed on the real engine and on the model and the complete observable outcome is compared.
 package c19
